@@ -89,6 +89,11 @@ def _mk_sampler(env, kind, S, dims, n):
             SH.assume_positive(env, sh, [{}])
             dom = sh.dom if dom is None else dom * sh.dom
         rec = K.record(tp.samplers.RandomUniformSampler(dom, n_points=n))
+    elif base == "gridfill":
+        # GridSampler whose grid does not fit n: the remainder is filled with fresh random points on every call
+        assert tuple(S) == ("x",) and dims["x"] == 2
+        sh = SH.parallelogram(SH.ConcShapeEnv(env), tag="P", var="x")
+        rec = K.record(tp.samplers.GridSampler(sh.dom, n_points=n))
     else:
         raise ValueError(kind)
     smp = rec.make_static() if static else rec
@@ -954,6 +959,42 @@ def variational_case(S, M, has_p, kind="fixed", n=2):
     return Case(name, body, goals, family="variational/" + ("p" if has_p else "nop"), params=dict(S=S, M=M, p=has_p, sampler=kind, n=n))
 
 
+def gridfill_case(n):
+    """PINNCondition fed by a NON-static GridSampler whose grid does not fit n (the remainder is filled with fresh
+    random points on every call): data functions must be evaluated at the rows sampled in THIS forward"""
+    name = "gridfill/PINN/Parallelogram/n%d/calls2" % n
+
+    def body(env):
+        X, U_ = Space({"x": 2}), Space({"u": 1})
+        model, orc = K.sym_fcn(env, "m", X, U_)
+        sh = SH.parallelogram(SH.ConcShapeEnv(env), tag="P", var="x")
+        smp = K.record(tp.samplers.GridSampler(sh.dom, n_points=n))
+        f = K.LinFn(env, "f", ["x"], {"x": 2})
+        rec = []
+
+        def residual(f, u, x):
+            rec.append(dict(f=f, u=u, x=x))
+            return u * f - x[:, :1]
+
+        cond = tp.conditions.PINNCondition(model, smp, residual, data_functions={"f": f.fn})
+        losses = [cond.forward(), cond.forward()]
+        return dict(losses=losses, rec=rec, produced=list(smp.produced), f=f, orc=orc, X=X)
+
+    def goals(o, L, env):
+        prod = o["produced"][-len(o["losses"]):]
+        yield "one_sample_per_forward", len(o["rec"]) == len(o["losses"]) and len(prod) == len(o["losses"])
+        for c, (r, pts, loss) in enumerate(zip(o["rec"], prod, o["losses"])):
+            rows = K.rows_by_name(pts, o["X"])
+            yield from K.cells_eq(L, "arg_x[call%d]" % c, r["x"], [ro["x"] for ro in rows])
+            yield from K.cells_eq(L, "arg_f[call%d]" % c, r["f"], [[o["f"].value(ro)] for ro in rows])
+            us = [o["orc"].value(ro)["u"] for ro in rows]
+            yield from K.cells_eq(L, "arg_u[call%d]" % c, r["u"], us)
+            res = [us[i][0] * o["f"].value(rows[i]) - rows[i]["x"][0] for i in range(len(rows))]
+            yield "loss_is_mean_squared_residual[call%d]" % c, L.eq(loss, K.mean(x * x for x in res))
+
+    return Case(name, body, goals, family="gridfill", params=dict(n=n), max_paths=16)
+
+
 def cases(tier):
     th = tier == "thorough"
     cs = []
@@ -973,6 +1014,7 @@ def cases(tier):
     cs.append(single_case("PINN", XT, TX, U, "fixed", has_c=True, has_p=False))
     cs.append(single_case("PINN", XT, TX, U, "fixed", has_f=False, has_p=False))
     cs.append(single_case("Mean", TX, XT, U, "random", calls=2))
+    cs.append(gridfill_case(3))
     # arbitrary residual values (fresh symbols): the reduction for ALL residual functions of this shape
     for cond in SINGLE:
         cs.append(single_case(cond, XT, TX, UV if cond != "HPMSampler" else U, "fixed_static" if cond == "Adaptive" else "random",
